@@ -8,7 +8,8 @@ THEOREMS = [
     "C14_mac_correct", "C14_reduce96_correct", "C14_reduce128_correct", "C14_reduce160_correct",
     "C14_to_canonical", "C14_add_canonical_u64_correct", "C14_sub_canonical_u64_correct",
     "C14_add_canonical_u64_refuted_without_precondition", "C14_sub_canonical_u64_refuted_without_precondition",
-    "C14_from_noncanonical_i64_correct",
+    "C14_from_noncanonical_i64_correct", "C14_order_prime", "C14_try_inverse_is_pow", "C14_inverse_correct",
+    "C14_try_inverse_zero", "C14_Fp_field", "C14_ext2_mul_correct", "C14_ext4_mul_correct", "C14_ext5_mul_correct",
 ]
 
 def oracle_scan(c, casefile, limit=20):
